@@ -758,17 +758,27 @@ impl Graph {
         // map of object id -> number of incoming edges
         let mut subgraph = BTreeMap::new();
 
+        // count, for each node of the subgraph, the incoming edges from
+        // within the subgraph. A root may itself be reachable from another
+        // root; its outgoing links must still be visited exactly once.
         for root in roots.iter() {
-            // for the roots, we set the edge count to the number of long
-            // incoming offsets; if this differs from the total number of
+            if !subgraph.contains_key(root) {
+                subgraph.insert(*root, 0);
+                self.find_subgraph_map_hb(*root, &mut subgraph);
+            }
+        }
+        for root in roots.iter() {
+            // for the roots, we add the number of long incoming offsets from
+            // outside of the subgraph; if the total differs from the number of
             // incoming offsets it means we need to dupe the root as well.
             let inbound_wide_offsets = self.nodes[root]
                 .parents
                 .iter()
-                .filter(|(_, len)| !matches!(len, OffsetLen::Offset16))
+                .filter(|(parent, len)| {
+                    !matches!(len, OffsetLen::Offset16) && !subgraph.contains_key(parent)
+                })
                 .count();
-            subgraph.insert(*root, inbound_wide_offsets);
-            self.find_subgraph_map_hb(*root, &mut subgraph);
+            *subgraph.get_mut(root).unwrap() += inbound_wide_offsets;
         }
 
         let next_space = self.next_space();
